@@ -192,6 +192,48 @@ def sharing_probe(R):
             R.violation("with no_copy=False the result shares a mutable container with the input", dict(type=str(tp), data=d))
 
 
+def passthrough_flatten_probe(R):
+    """pass-through options on classes holding a flattened dataclass: the result, completed with serialization_default, is
+    the result without pass-through (the case the property names as crashing)"""
+    pyrun.ensure_repo_on_path()
+    import json
+    from dataclasses import dataclass, field
+    from typing import List, Optional
+    from apischema import PassThroughOptions, serialize, serialization_default
+    from apischema.metadata import flatten
+
+    @dataclass
+    class In:
+        a: int = 0
+        t: Optional[str] = None
+
+    @dataclass
+    class Out:
+        b: int = 0
+        inner: In = field(default_factory=In, metadata=flatten)
+
+    @dataclass
+    class Holder:
+        o: Out
+        i: In
+        l: List[Out] = field(default_factory=list)
+    values = [(Out, Out(1, In(2, "x"))), (Holder, Holder(Out(1, In(2)), In(3), [Out(), Out(4, In(5))])), (List[Out], [Out(), Out(7)])]
+    for tp, v in values:
+        base = json.dumps(serialize(tp, v), sort_keys=True)
+        for pt in (PassThroughOptions(dataclasses=True), PassThroughOptions(dataclasses=True, collections=True),
+                   PassThroughOptions(dataclasses=True, any=True, tuple=True), PassThroughOptions(collections=True)):
+            R.count("passthrough_flatten_probe")
+            info = dict(type=str(tp), value=repr(v), pass_through=repr(pt))
+            try:
+                out = serialize(tp, v, pass_through=pt)
+                got = json.dumps(out, default=serialization_default(), sort_keys=True)
+            except Exception as e:   # noqa
+                R.violation(f"serialize with {pt} on a class holding a flattened dataclass raised {type(e).__name__}: {e}", info)
+                continue
+            if got != base:
+                R.violation(f"pass-through result {got} (completed with serialization_default) differs from {base}", info)
+
+
 def run(tier):
     R = core.Run("C08", tier)
     R.trusted = core.TRUSTED_COMMON + ["object identity (sharing with the input) is observed on the implementation only; "
@@ -288,6 +330,7 @@ def run(tier):
     probes.constructor_probe(R)
     probes.stdlib_round_trip_probe(R, aspects=("no_copy",))
     sharing_probe(R)
+    passthrough_flatten_probe(R)
     return R.finish(
         rule="every deserialization case is re-run with no_copy flipped, through the precomputed deserialization_method, "
              "and with settings.deserialization.override_dataclass_constructors flipped; results (values with runtime "
